@@ -11,7 +11,7 @@ import build as B
 import common as H
 import sercommon as S
 from common import Case
-from props.C12 import KINDS, UNIVS, valid_desc, falsy_descs
+from props.C12 import KINDS, UNIVS, valid_desc, falsy_descs, dw_descs, retarget_descs
 
 KMS = ["true", "false", "custom"]
 VMS = ["true", "false", "custom"]
@@ -91,6 +91,8 @@ class Prop:
         yield from self.fs_descs(tier, rng)
         for j, fd in enumerate(falsy_descs()):
             yield dict(fd, km=KMS[j % 3], vm=VMS[(j // 3) % 3])
+        yield from dw_descs(tier, rng)
+        yield from retarget_descs(tier, rng)
         combos = [(k, v) for k in KMS for v in VMS]
         i = 0
         for td in self.tree_descs(tier, rng):
@@ -177,8 +179,10 @@ class Prop:
         skw, lkw, cls = S.resolve_opts(desc)
         typed = bool(desc.get("typed"))
         ms = desc.get("mapper", "cb")
+        data_snap = S.data_snapshot(tree._root)
         tr = self.transports(tree, skw, cls, lkw)
-        fail = None
+        readonly = S.snapshot_diff(data_snap, S.data_snapshot(tree._root), "save() / load()")
+        fail = readonly
         finding = None
         name0, text0, t0, meta0 = tr[0]
         # --- the model is compared on the first transport; all others must do the same as the first
@@ -257,7 +261,7 @@ class Prop:
         for n in B.all_nodes(tree._root):
             if isinstance(n._data, str):
                 strings.add(n._data)
-        names = () if ms != "fs" or doc is None else fnames if isinstance(t0, Exception) else S.loaded_names(t0)
+        names = () if ms not in ("fs", "dw") or doc is None else fnames if isinstance(t0, Exception) else S.loaded_names(t0)
         coq = (f"CRound {S.coq_sopts(desc, tree, U)} {S.coq_lenv(typed, ms, strings, hashes if doc is not None else [], names)} "
                f"{H.coq_forest(tree._root, U)}")
         nodes = (doc or {}).get("nodes", [])
@@ -286,6 +290,16 @@ def _more_checks(self, desc, tree, cls, lkw, text0, t0):
         if canon(tc._root) != canon(t0._root):
             return (f"mapper: with a deserialize mapper ({style}) that pops 'data_id'/'kind' from its dict the loaded tree differs: "
                     f"{canon(tc._root)} instead of {canon(t0._root)}")
+    # (a2) ONE file_meta dict reused across loads (first another file written with maps, then this tree's files)
+    try:
+        skw0, lkw0, cls0 = S.resolve_opts(dict(desc, km="false", vm="false"))
+        fp0 = io.StringIO()
+        tree.save(fp0, **skw0)
+        r = S.file_meta_reuse_check(cls, lkw, [text0, fp0.getvalue(), text0], canon(t0._root))
+    except Exception as e:  # noqa: BLE001
+        r = f"file_meta: {e!r:.200}"
+    if r:
+        return r
     # (b) one meta dict reused by two saves with different options
     r = S.meta_reuse_check(desc, tree, cls, lkw)
     if isinstance(r, str):
